@@ -34,6 +34,8 @@ def make_gen(g):
         return MaxStepGenerator(base_step=1.0, step_ratio=1.3, num_steps=12)
     if g == 6:
         return MinStepGenerator(base_step=2.0 ** -8, step_ratio=1.3, num_steps=10)
+    if g == 7:
+        return MaxStepGenerator(base_step=1.0, step_ratio=2.0, num_steps=20)       # enough steps for rules of 16 and more terms
     return None
 
 
@@ -243,6 +245,15 @@ def run(tier, rep):
             h_.append(_ev(dict(op='call', obj=j_, x=1 + j_ % 3, m=m_, n=n_, o=o_, gen=0, key=[], hit=True)))
             h_.append(_ev(dict(op='call', obj=j_, x=2 + j_ % 2, m=m_, n=n_, o=o_, gen=0, key=[], hit=True)))
         hists.append((100000 + fi, h_))
+    # rules with 16 and more terms next to the one-term default rules of the same ratio (any packing of the cache key must keep them apart)
+    for fi, order_ in enumerate((((('forward', 1, 17, 7), ('central', 1, 2, 2), ('backward', 1, 17, 7), ('central', 2, 2, 2))), ((('central', 1, 2, 2), ('forward', 1, 17, 7), ('central', 1, 4, 2), ('forward', 1, 18, 7))))):
+        h_ = []
+        for j_, (m_, n_, o_, g_) in enumerate(order_, 1):
+            h_.append(_ev(dict(op='construct', obj=j_, cfg=0, gen=g_, kw=0, m=m_, n=n_, o=o_)))
+            h_.append(_ev(dict(op='call', obj=j_, x=1 + j_ % 2, m=m_, n=n_, o=o_, gen=g_, key=[], hit=False)))
+        for j_, (m_, n_, o_, g_) in enumerate(order_, 1):
+            h_.append(_ev(dict(op='call', obj=j_, x=2, m=m_, n=n_, o=o_, gen=g_, key=[], hit=True)))
+        hists.append((100010 + fi, h_))
     sigs = sorted({(e['op']['m'], e['op']['n'], e['op']['o'], e['op']['gen'], e['op']['x']) for _, h in hists for e in h if e['op']['op'] == 'call'})
     nsigs = sorted({((o['m'], o['n'], o['o'], o['gen'], o['x']), (o['im'], o['in'], o['io'], o['igen'])) for _, h in hists for e in h for o in [e['op']] if o['op'] == 'nested'})
     refs = dict(fresh_map(reference, sigs))
